@@ -268,10 +268,22 @@ impl<'a> Gen<'a> {
 
     fn subscribe(&mut self, i: usize) {
         let n = if self.rng.chance(1, 4) { self.rng.range(2, 3) } else { 1 };
+        let n = if self.p.shared && n == 1 && self.rng.chance(1, 6) { 2 } else { n };
         let pkid = self.pkid(i);
         let mut s = format!("sub {pkid} {} {n}", if self.p.v5 && self.rng.chance(1, 3) { format!("{}", self.rng.range(1, 9)) } else { "-".into() });
-        for _ in 0..n {
-            let f = rand_filter(&mut self.rng, self.p);
+        // sometimes a plain and a shared subscription of one client on the same path: both read
+        // the same log (the window records the log, not the subscription)
+        let twin = self.p.shared && self.rng.chance(1, 5);
+        let mut prev: Option<String> = None;
+        for k in 0..n {
+            let mut f = rand_filter(&mut self.rng, self.p);
+            if twin && k == 1 {
+                if let Some(p0) = &prev {
+                    let path = p0.strip_prefix("$share/").and_then(|r| r.split_once('/')).map_or(p0.as_str(), |x| x.1).to_string();
+                    f = if p0.starts_with("$share/") { path } else { format!("$share/{}/{}", self.rng.pick(&["g", "h"]), path) };
+                }
+            }
+            prev = Some(f.clone());
             let q = self.rng.below(3) as u8;
             s.push_str(&format!(" {} {q}", hex(f.as_bytes())));
             self.sims[i].subs.push((f, q));
